@@ -291,7 +291,7 @@ fn check(prop: &str, tier: &str) -> i32 {
 
     // the real-bash tier (C12 carrier, C13 stub conformance)
     let mut real_report = None;
-    if prop == "C12" || prop == "C13" || prop == "C18" {
+    if prop == "C12" || prop == "C13" || prop == "C18" || prop == "C05" || prop == "C15" {
         let r = real::run_real(prop, tier, seed, threads(), &known);
         real_report = Some(r);
     }
@@ -472,7 +472,7 @@ fn replay(path: &str) -> i32 {
             return 2;
         }
     };
-    if text.contains("\"real_history\"") || text.contains("\"real_expr\"") || text.contains("\"real_env\"") {
+    if text.contains("\"real_history\"") || text.contains("\"real_expr\"") || text.contains("\"real_env\"") || text.contains("\"real_doc\"") {
         return real::replay_real(path, &text);
     }
     let rf: ReplayFile = match serde_json::from_str(&text) {
